@@ -71,13 +71,16 @@ def main():
       out['tests_wall_s'] = round(time.time() - t0)
     t0 = time.time()
     e = dict(os.environ); e['VERIF_REPO'] = WT; e['VERIF_EVIDENCE_DIR'] = '/tmp/wt/evidence_scratch'
-    rc = sh(f'cd /verif && ./check {pid} --tier {tier}', env=e)
-    out['check_cmd'] = f'VERIF_REPO=<scratch worktree with patch> ./check {pid} --tier {tier}'
+    cp = os.environ.get('CHECK_PROP', pid)
+    rc = sh(f'cd /verif && ./check {cp} --tier {tier}', env=e)
+    out['check_cmd'] = f'VERIF_REPO=<scratch worktree with patch> ./check {cp} --tier {tier}'
     out['check_exit'] = rc.returncode
     out['check_wall_s'] = round(time.time() - t0)
     vl = [l for l in rc.stdout.splitlines() if l.startswith('VIOLATION') or l.strip().startswith('violation kind')]
     out['check_output'] = vl[:6]
     out['detected'] = rc.returncode == 1
+    if cp != pid:
+      out['detected_by'] = cp if rc.returncode == 1 else None
     if rc.returncode == 2:
       out['check_stderr'] = rc.stderr[-800:]
   finally:
